@@ -24,7 +24,7 @@ import zlib
 from harness import core, gen, histcheck, isoapi
 
 LEAN_MODULES = ['Pycdlib.Props.C12', 'Pycdlib.Props.Tie']
-THEOREMS = ['Pycdlib.Hybrid.calc_cc_spec', 'Pycdlib.Hybrid.backup_gpt_in_padding', 'Pycdlib.Hybrid.calc_cc_tie', 'Pycdlib.Hybrid.part_covers', 'Pycdlib.Hybrid.mbr_rba',
+THEOREMS = ['Pycdlib.Hybrid.calc_cc_spec', 'Pycdlib.Hybrid.backup_gpt_in_padding', 'Pycdlib.Hybrid.calc_cc_tie', 'Pycdlib.Hybrid.part_covers', 'Pycdlib.Hybrid.mbr_rba', 'Pycdlib.Hybrid.end_chs_decodes', 'Pycdlib.Hybrid.start_chs_decodes',
             'Pycdlib.crc32_tie', 'Pycdlib.crc32_table_spec', 'Pycdlib.crc32Byte_table']
 PARTIAL = {
     'mbr_shape / gpt_mirror partial': 'byte layout of MBR/GPT/APM and primary/backup mirroring are decided by the independent decoder per '
@@ -50,7 +50,9 @@ def run_fn(ctx):
             [(rng.randint(1, 63), rng.randint(1, 256)) for _ in range(300)] + [(32, 64), (63, 255), (1, 1), (63, 256)]
     for s, h in geoms:
         cyl = s * h * 512
-        for size in (0, 1, cyl - 1, cyl, cyl + 1, 1024 * cyl - 2048, 1024 * cyl, 1025 * cyl + 4096, rng.randrange(1, 10 ** 9) // 2048 * 2048):
+        # sizes around the cylinder boundary and around the room the backup GPT needs in the padding (33 sectors)
+        edge = [k * cyl - d for k in (1, 3) for d in (33 * 512 + 2048, 33 * 512 + 1, 33 * 512, 33 * 512 - 1, 32 * 512 + 1, 32 * 512, 32 * 512 - 1, 16384, 2048)]
+        for size in [0, 1, cyl - 1, cyl, cyl + 1, 1024 * cyl - 2048, 1024 * cyl, 1025 * cyl + 4096, rng.randrange(1, 10 ** 9) // 2048 * 2048] + edge:
             if size < 0:
                 continue
             for efi in (False, True):
@@ -105,6 +107,7 @@ def scenario(ctx, rng, tmpdir):
     if variant != 'plain' and hy['part_entry'] in (2, 3):
         hy['part_entry'] = 1
     share_boot = variant != 'plain' and rng.random() < 0.15
+    pre_step = rng.choice([None, None, None, 'write', 'force'])
 
     def build(with_hybrid):
         with isoapi.frozen_time():
@@ -151,6 +154,11 @@ def scenario(ctx, rng, tmpdir):
                 else:
                     s.close()
                     return None, None
+            # add_isohybrid as the only edit after the layout was computed (an earlier write, an explicit recomputation)
+            if pre_step == 'write':
+                iso.write_fp(io.BytesIO())
+            elif pre_step == 'force':
+                iso.force_consistency()
             if with_hybrid:
                 iso.add_isohybrid(**{k: v for k, v in hy.items() if v is not None or k == 'mbr_id'})
             out = io.BytesIO()
@@ -207,9 +215,16 @@ def scenario(ctx, rng, tmpdir):
         st, bh, bs, bc, pt, eh, es, ec, off, psize = struct.unpack('<BBBBBBBBLL', parts[hy['part_entry'] - 1])
         cc_full = len(img) // cyl
         cc = min(cc_full, 1024)
-        want = (h_geo - 1, s_geo + (((cc - 1) & 0x300) >> 2), (cc - 1) & 0xff, hy['part_offset'], cc * h_geo * s_geo - hy['part_offset'])
+        # expected CHS fields from the Lean model (Hybrid.startChs / endFields; theorems start_chs_decodes, end_chs_decodes)
+        m = [int(x) for x in ctx.driver.ask(['mbrchs %d %d %d %d' % (cc, h_geo, s_geo, hy['part_offset'])])[0].split()]
+        want = (m[3], m[4], m[5], hy['part_offset'], m[6])
         if (eh, es, ec, off, psize) != want:
             viol('C12.mbr/geometry', 'active partition end/offset/size %s, expected %s for the padded image' % ((eh, es, ec, off, psize), want))
+        if (bh, bs, bc) != (m[0], m[1], m[2]):
+            viol('C12.mbr/start-chs', 'active partition start CHS %s, expected %s for offset %d' % ((bh, bs, bc), tuple(m[:3]), hy['part_offset']))
+        # and the fields decode back (MBR rules) to the last cylinder / the offset
+        if cc <= 1024 and ((es >> 6) << 8 | ec) != cc - 1 or (es & 63) != s_geo:
+            viol('C12.mbr/geometry-decode', 'end CHS (%d,%d,%d) does not decode to cylinder %d, sector %d' % (eh, es, ec, cc - 1, s_geo))
         ptype = hy.get('part_type')
         exp_type = ptype if ptype is not None else (0 if variant != 'plain' else 0x17)
         if pt != exp_type:
@@ -282,7 +297,7 @@ def scenario(ctx, rng, tmpdir):
     except Exception as e:  # noqa
         viol('C12.reopen/%s' % isoapi.exc_class(e), 'cannot reopen the hybrid image: %r' % e)
     nontriv = variant != 'plain' or (s_geo, h_geo) != (32, 64) or hy['part_entry'] != 1 or hy['part_offset'] != 0
-    ctx.count(key=seed, nontrivial=nontriv, kind='variant:' + variant, sample={'cfg': cfg, 'variant': variant, 'hybrid': hy, 'sizes': sizes, 'load': lsz})
+    ctx.count(key=seed, nontrivial=nontriv, kind='variant:' + variant, sample={'cfg': cfg, 'variant': variant, 'hybrid': hy, 'sizes': sizes, 'load': lsz, 'before_isohybrid': pre_step})
 
 
 def run(ctx):
